@@ -1109,6 +1109,13 @@ class Exec:
                 return leaf(st.env[fi][n], st)
         if p[-1] == 'None' and all(x in ('Option', 'std', 'core', 'option') for x in p[:-1]):
             return leaf(('opt', 'none'), st)
+        if p[-1] in self.src.free and all(re.fullmatch(r'[a-z_][a-z_0-9]*|crate|self|super', x) for x in p[:-1]) \
+                and not self.gen.is_root(p[-1]):
+            # a free helper function passed by name (`map_err(into_graph_error)`): the closure `|x| helper(x)`
+            fn = self.src.free[p[-1]]
+            n = len(fn.get('params_list', [])) if 'params_list' in fn else None
+            if n in (None, 1):
+                return leaf(('closure', [('bind', '__eta', False)], ('call', ('path', [p[-1]]), [('path', ['__eta'])])), st)
         raise self.bad('name `' + '::'.join(p) + '` is not a local, parameter or recognised constant')
 
     def eval_bin(self, op, a, b, st):
